@@ -142,16 +142,26 @@ func rawState(l *sqlLexer) stateFn {
 				return placeholderState
 			}
 		case '-':
+			// the parser takes "--" as a comment only when white space (or the end) follows
 			nextRune, width := utf8.DecodeRuneInString(l.src[l.pos:])
 			if nextRune == '-' {
-				l.pos += width
-				return oneLineCommentState
+				after := l.src[l.pos+width:]
+				if after == "" || strings.ContainsRune(" \t\n\r", rune(after[0])) {
+					l.pos += width
+					return oneLineCommentState
+				}
 			}
+		case '#':
+			return oneLineCommentState
 		case '/':
 			nextRune, width := utf8.DecodeRuneInString(l.src[l.pos:])
 			if nextRune == '*' {
 				l.pos += width
 				return multilineCommentState
+			}
+			if nextRune == '/' {
+				l.pos += width
+				return oneLineCommentState
 			}
 		case utf8.RuneError:
 			if width != replacementcharacterwidth {
